@@ -26,7 +26,7 @@ import "math"
 func Mgamma(x float64, k int) float64 {
   result := math.Pow(math.Pi, float64(k*(k-1.0))/4.0)
   for i := 1; i <= k; i += 1 {
-    result *= math.Gamma((2.0*x+1.0-float64(i))/2.0)
+    result *= math.Gamma(x + 0.5*float64(1-i))
   }
   return result
 }
@@ -34,7 +34,7 @@ func Mgamma(x float64, k int) float64 {
 func Mlgamma(x float64, k int) float64 {
   result := float64(k*(k-1.0))/4.0*math.Log(math.Pi)
   for i := 1; i <= k; i += 1 {
-    v, _ := math.Lgamma((2.0*x+1.0-float64(i))/2.0)
+    v, _ := math.Lgamma(x + 0.5*float64(1-i))
     result += v
   }
   return result
